@@ -1,13 +1,13 @@
 -------------------------------- MODULE SeqX --------------------------------
 (* Sequence helpers; "At" gives 0-based access so transcriptions of the     *)
 (* code keep the code's index arithmetic.                                   *)
-EXTENDS Integers, Sequences, FiniteSets
+EXTENDS Integers, Sequences, FiniteSets, TLC
 
 At(s, i) == s[i + 1]
 Upd(s, i, v) == [s EXCEPT ![i + 1] = v]
-Slice(s, a, b) == [i \in 1..(b - a) |-> s[a + i]]          \* python s[a:b]
+Slice(s, a, b) == TLCEval([i \in 1..(b - a) |-> s[a + i]])          \* python s[a:b]
 Last(s) == s[Len(s)]
-RevSeq(s) == [i \in 1..Len(s) |-> s[Len(s) + 1 - i]]
+RevSeq(s) == TLCEval([i \in 1..Len(s) |-> s[Len(s) + 1 - i]])
 RECURSIVE FlattenSeq(_)
 FlattenSeq(ss) == IF ss = <<>> THEN <<>> ELSE Head(ss) \o FlattenSeq(Tail(ss))
 Count(s, x) == Cardinality({i \in 1..Len(s) : s[i] = x})
